@@ -96,7 +96,7 @@ def check_blend(P, R):
         pol.check_inverse(R, "BLEND.placement", f.key, it, direct=data_a + prior_a + [al] + neg_a, what=f"{t.attr}: data, prior and alpha stand in numerators", line=st.lineno)
         pc = pol.Pol(P, f, opaque={"alpha"}, track_coef=True)
         tc = list(dict.fromkeys(pc.terms(blend, cst)))
-        pol.check_coefficients(R, "BLEND.coef", f.key, tc, [([x_], None) for x_ in data_a + prior_a[:1]], what=f"{t.attr}: alpha*data + (1 - alpha)*prior has no other literal factor", line=st.lineno)
+        pol.check_coefficients(R, "BLEND.coef", f.key, tc, [([x_], None) for x_ in data_a + prior_a], what=f"{t.attr}: alpha*data + (1 - alpha)*prior has no other literal factor", line=st.lineno)
         if prior_arm is not None:
             for na in neg_a:
                 pt = list(dict.fromkeys(p.terms(prior_arm, cst)))
